@@ -330,3 +330,150 @@ Proof.
     inversion H; subst. split; [apply list_word_w64; lia|].
     unfold pack. apply (pack_all_w64 2 64); [lia| reflexivity| apply bits_digits].
 Qed.
+
+(* ------------------------------------------------------------------ norm keeps fields in range *)
+Lemma forallb_strip0 (f : Z -> bool) d : forallb f d = true -> forallb f (strip0 d) = true.
+Proof. intros H. apply forallb_forall. intros z Hz. apply In_strip0 in Hz. eapply forallb_In; eassumption. Qed.
+
+Lemma forallb_pad0 (f : Z -> bool) n d : f 0 = true -> forallb f d = true -> forallb f (pad0 n d) = true.
+Proof.
+  intros H0 H. unfold pad0. rewrite forallb_app, H. cbn. induction (n - length d)%nat; [reflexivity|]. cbn. rewrite H0. assumption.
+Qed.
+
+Lemma ranged_padN n l : forallb ranged l = true -> forallb ranged (padN n l) = true.
+Proof.
+  intros H. unfold padN. rewrite forallb_app, H. cbn. induction (n - length l)%nat; [reflexivity| exact IHn0].
+Qed.
+
+Lemma ranged_struct_parts d ps : ranged (VStruct d ps) = true ->
+  forallb (fun x => (0 <=? x) && (x <? two64)) d = true /\ forallb ranged ps = true.
+Proof. cbn [ranged]. intros H. apply andb_prop in H. exact H. Qed.
+
+
+Ltac prim_ranged_case :=
+  match goal with G : forall e, In e ?es -> _ /\ _ |- _ =>
+    rewrite map_map; apply forallb_forall; intros y Hy; apply in_map_iff in Hy; destruct Hy as (e & <- & He);
+    destruct (G e He) as [G1 _]; cbn [forallb]; rewrite !andb_true_r;
+    destruct (sdata (norm e)) as [|x0 r0]; cbn [hd_word]; [reflexivity|];
+    cbn [forallb] in G1; apply andb_prop in G1; destruct G1 as [G1 _]; exact G1
+  end.
+
+Theorem norm_ranged : forall v, ranged v = true -> ranged (norm v) = true.
+Proof.
+  induction v using value_ind2; intros Hr; try reflexivity.
+  - (* struct *)
+    destruct (ranged_struct_parts _ _ Hr) as [Rd Rp]. cbn [norm ranged].
+    rewrite (forallb_strip0 _ d Rd). cbn [andb]. apply forallb_forall. intros y Hy. apply In_stripN in Hy.
+    apply in_map_iff in Hy. destruct Hy as (p & <- & Hp). rewrite Forall_forall in H. apply (H p Hp).
+    eapply forallb_In; eassumption.
+  - (* lists *)
+    rewrite Forall_forall in H. cbn [ranged] in Hr.
+    (* the normal form of an element: data within the kind's bound, pointers ranged *)
+    assert (G : forall e, In e es ->
+              forallb (fun x => (0 <=? x) && (x <? (match k with LComp => two64 | _ => kind_base k end))) (sdata (norm e)) = true
+              /\ forallb ranged (sptrs (norm e)) = true).
+    { intros e He. pose proof (forallb_In _ _ _ Hr He) as R. cbn beta in R.
+      destruct e as [| |d ps|k0 es0|]; try (split; reflexivity).
+      - apply andb_prop in R. destruct R as [R1 R2]. cbn [norm sdata sptrs]. split; [apply forallb_strip0; exact R1|].
+        assert (Re : ranged (VStruct d ps) = true).
+        { cbn [ranged]. rewrite R2, andb_true_r. apply forallb_forall. intros z Hz. pose proof (forallb_In _ _ _ R1 Hz) as Rz.
+          pose proof (kind_base_le k). destruct k; unfold two64 in *; lia. }
+        specialize (H _ He Re). cbn [norm] in H. apply ranged_struct_parts in H. apply H.
+      - destruct k0; split; reflexivity. }
+    destruct k; cbn [norm ranged].
+    + rewrite map_map. apply forallb_forall. intros y Hy. apply in_map_iff in Hy. destruct Hy as (e & <- & _). reflexivity.
+    + prim_ranged_case.
+    + prim_ranged_case.
+    + prim_ranged_case.
+    + prim_ranged_case.
+    + (* pointer list *)
+        rewrite map_map. apply forallb_forall. intros y Hy. apply in_map_iff in Hy. destruct Hy as (e & <- & He).
+        destruct (G e He) as [_ G2]. cbn [forallb andb]. rewrite andb_true_r.
+        destruct (sptrs (norm e)) as [|p0 r0]; cbn [hd_ptr]; [reflexivity|].
+        cbn [forallb] in G2. apply andb_prop in G2. destruct G2 as [G2 _]. exact G2.
+    + (* struct list *)
+        apply forallb_forall. intros y Hy. unfold pad_elems in Hy. apply in_map_iff in Hy. destruct Hy as (n & <- & Hn).
+        apply in_map_iff in Hn. destruct Hn as (e & <- & He). destruct (G e He) as [G1 G2].
+        rewrite (forallb_pad0 _ _ _ eq_refl G1), (ranged_padN _ _ G2). reflexivity.
+Qed.
+
+(* ------------------------------------------------------------------ bytes <-> words *)
+Lemma le_word_roundtrip w : w64 w -> le_decode (le_encode 8 w) = w.
+Proof.
+  intros [H0 H1]. unfold two64 in H1. cbn [le_encode le_decode].
+  repeat match goal with |- context [?a / 256 / 256] => replace (a / 256 / 256) with (a / 65536) by (rewrite Z.div_div by lia; reflexivity) end.
+  pose proof (Z.div_mod w 256 ltac:(lia)). pose proof (Z.mod_pos_bound w 256 ltac:(lia)).
+  set (q1 := w / 256) in *. pose proof (Z.div_mod q1 256 ltac:(lia)). pose proof (Z.mod_pos_bound q1 256 ltac:(lia)).
+  set (q2 := q1 / 256) in *. pose proof (Z.div_mod q2 256 ltac:(lia)). pose proof (Z.mod_pos_bound q2 256 ltac:(lia)).
+  set (q3 := q2 / 256) in *. pose proof (Z.div_mod q3 256 ltac:(lia)). pose proof (Z.mod_pos_bound q3 256 ltac:(lia)).
+  set (q4 := q3 / 256) in *. pose proof (Z.div_mod q4 256 ltac:(lia)). pose proof (Z.mod_pos_bound q4 256 ltac:(lia)).
+  set (q5 := q4 / 256) in *. pose proof (Z.div_mod q5 256 ltac:(lia)). pose proof (Z.mod_pos_bound q5 256 ltac:(lia)).
+  set (q6 := q5 / 256) in *. pose proof (Z.div_mod q6 256 ltac:(lia)). pose proof (Z.mod_pos_bound q6 256 ltac:(lia)).
+  set (q7 := q6 / 256) in *. pose proof (Z.div_mod q7 256 ltac:(lia)). pose proof (Z.mod_pos_bound q7 256 ltac:(lia)).
+  assert (q7 / 256 = 0) by (apply Z.div_small; lia). lia.
+Qed.
+
+Lemma words_of_bytes_of_words ws : Forall w64 ws -> words_of_bytes (bytes_of_words ws) = ws.
+Proof.
+  induction 1 as [|w r Hw Hr IH]; [reflexivity|].
+  unfold bytes_of_words in *. cbn [flat_map].
+  pose proof (le_word_roundtrip w Hw) as E. cbn [le_encode] in *. cbn [app words_of_bytes]. rewrite E, IH. reflexivity.
+Qed.
+
+(* ------------------------------------------------------------------ [T1] the canonical form decodes *)
+(* for every well-formed, capability-free value with in-range fields: the strict pre-order
+   decoder accepts the canonical BYTES and returns exactly the canonical representative
+   norm v, which is equal (value_eqs, hence value_eq) to v *)
+Theorem cdecode_canon : forall v bs, good v -> canon v = Some bs ->
+  cdecode (S (vdepth (norm v))) bs = Some (norm v).
+Proof.
+  intros v bs G H. unfold canon, canon_words in H.
+  destruct (enc (S (vdepth (norm v))) (norm v) 0 1) as [[w body]| | |] eqn:E; try discriminate.
+  cbn [cbind fst snd] in H. assert (Hbs : bs = bytes_of_words (w :: body)) by congruence. subst bs. clear H.
+  destruct G as (Gw & Gr & Gc).
+  destruct (enc_w64 _ _ _ _ _ _ (norm_ranged v Gr) E) as [W0 WB].
+  unfold cdecode. rewrite bytes_of_words_length.
+  replace ((8 * length (w :: body)) mod 8 =? 0)%nat with true
+    by (symmetry; apply Nat.eqb_eq; rewrite Nat.mul_comm; apply Nat.mod_mul; discriminate).
+  rewrite words_of_bytes_of_words by (constructor; assumption).
+  unfold cdecode_words.
+  pose proof (cparse_enc_partial _ _ _ _ _ _ [] (norm_skel v (conj Gw (conj Gr Gc))) E) as P.
+  rewrite app_nil_r in P. rewrite P. reflexivity.
+Qed.
+
+Corollary canon_decodes_equal : forall v bs, good v -> canon v = Some bs ->
+  exists v', cdecode (S (vdepth (norm v))) bs = Some v' /\ value_eqs v' v = true /\ value_eq v' v = true.
+Proof.
+  intros v bs G H. exists (norm v). split; [apply cdecode_canon; assumption|].
+  destruct G as (Gw & _). pose proof (norm_veq v Gw) as E. split; [exact E| apply value_eqs_value_eq; exact E].
+Qed.
+
+(* ------------------------------------------------------------------ idempotence through the decoder *)
+Lemma skel_nocap : forall v, skel v = true -> nocap v = true.
+Proof.
+  induction v using value_ind2; intros Hs; try reflexivity; try discriminate.
+  - cbn [skel nocap] in *. apply forallb_forall. intros p Hp. rewrite Forall_forall in H. apply (H p Hp).
+    eapply forallb_In; eassumption.
+  - rewrite Forall_forall in H. cbn [nocap]. apply forallb_forall. intros e He.
+    destruct k; cbn [skel] in Hs; pose proof (forallb_In _ _ _ Hs He) as S; cbn beta in S;
+      destruct e as [| |d ps| |]; try discriminate; cbn [nocap].
+    + destruct d; try discriminate. destruct ps; try discriminate. reflexivity.
+    + destruct d as [|? [|]]; try discriminate. destruct ps; try discriminate. reflexivity.
+    + destruct d as [|? [|]]; try discriminate. destruct ps; try discriminate. reflexivity.
+    + destruct d as [|? [|]]; try discriminate. destruct ps; try discriminate. reflexivity.
+    + destruct d as [|? [|]]; try discriminate. destruct ps; try discriminate. reflexivity.
+    + destruct d; try discriminate. destruct ps as [|p [|]]; try discriminate. cbn [forallb]. rewrite andb_true_r.
+      assert (Hsk : skel (VStruct [] [p]) = true) by (cbn; rewrite S; reflexivity).
+      specialize (H _ He Hsk). cbn [nocap forallb] in H. rewrite andb_true_r in H. exact H.
+    + apply andb_prop in S. destruct S as [_ S].
+      assert (Hsk : skel (VStruct d ps) = true) by (cbn; exact S).
+      specialize (H _ He Hsk). exact H.
+Qed.
+
+(* Canonicalising what the decoder read back from a canonical message returns the same bytes *)
+Theorem canon_idempotent : forall v bs v', good v -> canon v = Some bs ->
+  cdecode (S (vdepth (norm v))) bs = Some v' -> canon v' = Some bs.
+Proof.
+  intros v bs v' G H D. rewrite (cdecode_canon v bs G H) in D. inversion D; subst v'.
+  rewrite canon_norm; [exact H| apply G| apply skel_nocap; apply norm_skel; exact G].
+Qed.
